@@ -29,6 +29,24 @@ HOOKS = '''
 '''
 
 
+REPL = '''
+@dataclass
+class Repl{b}:
+    a: int = -1
+    b: int = 0
+    def __pre_serialize__(self):
+        return Repl(self.a + 1, self.b)
+    def __post_serialize__(self, d):
+        return {{"a": d["a"], "b": d["b"], "extra": 1}}
+    @classmethod
+    def __pre_deserialize__(cls, d):
+        return {{}} if d.get("reset") else {{k: v for k, v in d.items() if k != "b"}}
+    @classmethod
+    def __post_deserialize__(cls, obj):
+        return Repl(obj.a, obj.b + 100)
+'''
+
+
 def prelude(base, context=False):
     hooks = HOOKS.format(ctxarg=", context=None" if context else "", ctxval="context" if context else "None")
     cfg = "    class Config(BaseConfig):\n        code_generation_options = [ADD_SERIALIZATION_CONTEXT]\n" if context else ""
@@ -48,6 +66,18 @@ class M2{b}:
 @dataclass
 class Child(M1):
     z: int = 0
+
+@dataclass
+class PostOnly{b}:
+    p: int = 0
+{cfg}
+    def __post_serialize__(self, d{ctxarg}):
+        LOG.append(("post_ser", type(self).__name__, id(self), {ctxval}))
+        return d
+    @classmethod
+    def __post_deserialize__(cls, obj):
+        LOG.append(("post_de", type(obj).__name__, id(obj), None))
+        return obj
 
 @dataclass
 class NoHook{b}:
@@ -70,8 +100,10 @@ class OutM{b}:
     n: NoHook
     t: Tuple[M1, M2]
     c: Child
+    po: List[PostOnly]
+    opo: Optional[PostOnly] = None
 {cfg}{hooks}
-'''.format(b=b, cfg=cfg, hooks=hooks)
+'''.format(b=b, cfg=cfg, hooks=hooks, ctxarg=", context=None" if context else "", ctxval="context" if context else "None")
 
 
 def harnesses(tier, seed):
@@ -79,11 +111,17 @@ def harnesses(tier, seed):
     combos = [("DataClassDictMixin", "mixin", False), ("object", "codec", False), ("DataClassDictMixin", "mixin", True),
               ("DataClassORJSONMixin", "orjson", False), ("DataClassMessagePackMixin", "msgpack", False),
               ("DataClassDictMixin", "codec", False)]
-    types = ["Out", "OutU", "OutM", "Union[M1, M2]", "List[Union[M1, M2]]", "Optional[M2]", "Dict[str, Union[M2, M1]]",
+    types = ["Out", "OutU", "OutM", "Repl", "List[Repl]", "Union[M1, M2]", "List[Union[M1, M2]]", "Optional[M2]", "Dict[str, Union[M2, M1]]",
              "Tuple[M1, ...]"]
     for base, variant, context in combos:
         for t in types:
-            if variant != "codec" and not t.startswith("Out"):
+            if variant != "codec" and not (t.startswith("Out") or t == "Repl"):
+                continue
+            if t.endswith("Repl") or t.endswith("Repl]"):
+                if context:
+                    continue
+                s = Schema("%s_%s" % (t, base[:12]), t, prelude(base, context) + REPL.format(b="" if base == "object" else "(%s)" % base))
+                hs.append(gen.value_harness("C19", "c19", s, variant, "Bounds(maxlen=2)", setup_kwargs="context=False, repl=True"))
                 continue
             if tier == "quick" and variant in ("orjson", "msgpack") and t != "OutU":
                 continue
